@@ -1,6 +1,7 @@
 CONSTANTS
   MaxN = 6
   Kinds <- KindsStruct
+  DUP = FALSE
   SFlaws <- SFlawsDef
 SPECIFICATION Spec
 INVARIANT EmitFew
